@@ -319,6 +319,11 @@ func BuildCte(query *Query, expr *sqlparser.With) error {
 		copy := *cte
 		id := copy.ID.String()
 		data[id] = CteEvaluation(func() (any, error) {
+			// while the CTE is being evaluated a reference to it (from its own definition,
+			// directly or through another CTE) is an error instead of an endless recursion
+			data[id] = CteEvaluation(func() (any, error) {
+				return nil, EXPECTATION_FAILED.Extend(fmt.Sprintf("cte %s refers to itself", id))
+			})
 			query, err := Prepare(data, copy.Subquery, query.options)
 			if err != nil {
 				return nil, err
